@@ -449,7 +449,7 @@ func TestC08(t *testing.T) {
 		return
 	}
 
-	search(t, rec, "history", budget(2500, 64000), 35, func(rt *rapid.T) {
+	search(t, rec, "history", budget(2500, 480000), 35, func(rt *rapid.T) {
 		w := rnsMachine(rt, c, rnsWeights{}, c08Oracle, rec)
 		rec.Count("histories")
 		if w.moveWithStaleListing {
@@ -496,7 +496,7 @@ func TestC09(t *testing.T) {
 		return
 	}
 
-	search(t, rec, "history", budget(2500, 64000), 35, func(rt *rapid.T) {
+	search(t, rec, "history", budget(2500, 480000), 35, func(rt *rapid.T) {
 		w := rnsMachine(rt, c, rnsWeights{bidHeavy: true}, c09Oracle, rec)
 		rec.Count("histories")
 		if w.rebid {
